@@ -231,9 +231,14 @@ def run(ctx, rep):
     c13.check_aliasing(ctx, rep, 'R03.5')
 
     # ---- R03.6 ---------------------------------------------------------------------------------
-    for d in ('object::Float::destroy', 'object::String::destroy', 'object::Array::destroy'):
+    destroyers = [d for d in ('object::Float::destroy', 'object::String::destroy', 'object::Array::destroy') if d in F.fns]
+    for d in destroyers:
         cs = sorted({f.path for f, b, t in F.callers_of(lambda p, d=d: p == d)})
         rep.ob(cs == ['object::Object::free'], 'R03.6', d, 'callers', 'only Object::free destroys boxes: %s' % cs, 'src/object.rs')
+    # wherever the release is written: memory goes back to the allocator only in the destroy functions or in Object::free itself
+    deallocs = sorted({f.path for f, b, t in F.callers_of(lambda p: p == 'alloc::alloc::dealloc') if f.crate == 'lib'})
+    rep.ob(bool(deallocs) and set(deallocs) <= set(destroyers) | {'object::Object::free'}, 'R03.6', 'alloc::alloc::dealloc', 'callers',
+           'boxes are deallocated only by the destroy functions / Object::free: %s' % deallocs, 'src/object.rs')
     cs = sorted({f.path for f, b, t in F.callers_of(lambda p: p == 'object::Object::free')})
     rep.ob(set(cs) <= {GCN + 'sweep', 'object::Object::free_recursive'}, 'R03.6', 'object::Object::free', 'callers', 'only the sweep and free_recursive free objects: %s' % cs, 'src/object.rs')
     cs = sorted({f.path for f, b, t in F.callers_of(lambda p: p == 'object::Object::free_recursive')})
